@@ -11,7 +11,8 @@ TagPool == << <<Item(TRUE, 0), Item(TRUE, 2)>>,                       \* "0_2"
               <<Item(FALSE, 0), Item(TRUE, 1), Item(FALSE, 0), Item(TRUE, -1), Item(TRUE, 3)>>,   \* "x_1__-1_3"
               <<>>,                                                     \* "" -> one unparsable empty item
               <<Item(TRUE, 1), Item(TRUE, 1), Item(TRUE, 5)>>,        \* duplicates "1_1_5"
-              <<Item(FALSE, 0)>> >>                                    \* "abc"
+              <<Item(FALSE, 0)>>,                                      \* "abc"
+              <<Item(TRUE, 1), Item(FALSE, 0), Item(FALSE, 0)>> >>     \* "1_x_x": more raw items than the limit, fewer parsed ones
 Limits == {0, 1, 2, 1000}
 
 VS5 == {-2, -1, 0, 1, 3}
